@@ -691,6 +691,9 @@ impl BuilderArea {
                             if whole.get(s..en) != Some(a.as_str()) {
                                 cx.fail("C02", format!("text of e{} is not the slice {}..{} of the whole text", id, s, en));
                             }
+                            if matches!(e, NodeOrToken::Token(_)) && a.len() != en - s {
+                                cx.fail("C11", format!("token e{} spans {} bytes but its text {} has {}", id, en - s, hex(&a), a.len()));
+                            }
                             if own != a {
                                 let prop = if matches!(e, NodeOrToken::Token(_)) { "C11" } else { "C02" };
                                 cx.fail(prop, format!("text of e{} is {} but it was built from {}", id, hex(&a), hex(&own)));
